@@ -317,6 +317,20 @@ fn items(tier: Tier) -> &'static Vec<(Sc, u32)> {
                 v.push((Sc { bursts: vec![a.clone(), b.clone()], drop_at: DropAt::End, burst_at_retirement: None }, 0));
             }
         }
+        if !thorough {
+            // three bursts in a row, reclamation judged after each long idle period
+            let few: Vec<Burst> = singles.iter().filter(|b| b.n >= 5 && (b.idle_ms == 0 || b.idle_ms == LONG_IDLE_MS)).cloned().collect();
+            for a in &few {
+                for b in &few {
+                    for c in &few {
+                        if a.idle_ms == 0 && b.idle_ms == 0 && c.idle_ms == 0 {
+                            continue;
+                        }
+                        v.push((Sc { bursts: vec![a.clone(), b.clone(), c.clone()], drop_at: DropAt::End, burst_at_retirement: None }, 0));
+                    }
+                }
+            }
+        }
         if thorough {
             let few: Vec<Burst> = singles.iter().filter(|b| b.n >= 5 && b.idle_ms != 4900 && b.idle_ms != 11000).cloned().collect();
             for a in &few {
@@ -386,7 +400,7 @@ impl Check for C20 {
     }
     fn rule(&self, tier: Tier) -> String {
         format!(
-            "histories of 1..{} bursts of N in {:?} connections (each answered; closed or left open) followed by {:?} ms of virtual idleness, at the default schedule; server drop {{before any connection, racing with a connecting client, with a request queued but never received, with a request handed out and answered afterwards, while surplus workers are retiring, at the end}} after histories {{none, 1 closed, 6 closed, 2 open}} with all schedules of at most {} deviations (strict; one less after the longer histories) around the drop; a burst of 1/2/5 arriving exactly when the surplus workers of a burst of 5/6/8 reach their 5 s idle timeout, same bound; {} scenarios; oracle: after the drop and quiescence a new connect is refused in every schedule, a handed-out request is still answered and its bytes reach the client, every burst is answered completely, threads alive after 120 s of idleness (far above any sensible idle period; the statement names none) <= baseline + open connections; non-trivial = all",
+            "histories of 1..{} bursts (3 in both tiers) of N in {:?} connections (each answered; closed or left open) followed by {:?} ms of virtual idleness, at the default schedule; server drop {{before any connection, racing with a connecting client, with a request queued but never received, with a request handed out and answered afterwards, while surplus workers are retiring, at the end}} after histories {{none, 1 closed, 6 closed, 2 open}} with all schedules of at most {} deviations (strict; one less after the longer histories) around the drop; a burst of 1/2/5 arriving exactly when the surplus workers of a burst of 5/6/8 reach their 5 s idle timeout, same bound; {} scenarios; oracle: after the drop and quiescence a new connect is refused in every schedule, a handed-out request is still answered and its bytes reach the client, every burst is answered completely, threads alive after 120 s of idleness (far above any sensible idle period; the statement names none) <= baseline + open connections; non-trivial = all",
             if tier == Tier::Thorough { 3 } else { 2 }, if tier == Tier::Thorough { vec![1, 4, 5, 8] } else { vec![1, 5, 8] },
             if tier == Tier::Thorough { vec![0, 4900, 5100, 11000, LONG_IDLE_MS] } else { vec![0, 4900, 5100, LONG_IDLE_MS] }, if tier == Tier::Thorough { 2 } else { 1 }, items(tier).len()
         )
